@@ -77,7 +77,7 @@ FORMATS = {"simple": ["kthlist", "gml", "dot", "dimacs"],
            "dag": ["kthlist", "gml", "dot", "dimacs"],
            "bipartite": ["kthlist", "gml", "dot", "matrix"]}
 NAMES = [None, "my graph", "graph with newline\n", "c 3", "café", "",
-         "p edge 1 0"]
+         "p edge 1 0", "two\nlines", "x\n2\ne 1 2", "a\rb", "t\n1 : 2 0\n"]
 
 
 def _gen_graph(rng, gtype):
@@ -122,8 +122,11 @@ def generate(rng, config):
             gtype = "bipartite"
         elif fmt == "dimacs" and gtype == "bipartite":
             gtype = "simple"
-        return {"type": gtype, "format": fmt, "text": _gen_text(rng, fmt),
+        case = {"type": gtype, "format": fmt, "text": _gen_text(rng, fmt),
                 "load": _gen_load(rng, fmt), "faults": []}
+        if rng.random() < 0.3:
+            case["hops"] = [rng.choice(FORMATS[gtype])]
+        return case
     fmt = rng.choice(FORMATS[gtype])
     if config == "truncate":
         fmt = rng.choice([f for f in FORMATS[gtype]
@@ -134,6 +137,11 @@ def generate(rng, config):
                       "explicit": rng.random() < 0.5,
                       "write_chunk": rng.choice([None, None, 1, 5])},
             "load": _gen_load(rng, fmt), "faults": []}
+    if config == "roundtrip" and rng.random() < 0.35:
+        # the graph that was read is written again, possibly in another
+        # format, and read again (files are converted between tools)
+        case["hops"] = [rng.choice(FORMATS[gtype])
+                        for _ in range(rng.choice([1, 1, 2]))]
     if config == "damage":
         case["faults"] = [{"kind": "stored", "seed": rng.randrange(2 ** 30),
                            "which": rng.choice(DAMAGE_KINDS)}
@@ -302,6 +310,40 @@ def _load(data, case, fs, ctx, gtype, plan_extra=None):
             ctx.note("third-party diagnostics printed on stdout")
 
 
+def _hops(G, ref, case, fs, ctx, gtype, where):
+    """The graph just read is written in another format and read again:
+    every conversion must preserve it (write/read/write/read history)."""
+    for i, fmt2 in enumerate(case.get("hops") or []):
+        name = "hop%d.%s" % (i, fmt2)
+        out = SimStream(name="<stdout>")
+        saved = sys.stdout
+        sys.stdout = out
+        try:
+            fs.put(name, b"")
+            r = call(writeGraph, G, name, gtype, "autodetect")
+            data = fs.data(name)
+            if r[0] == "exc":
+                raise Violation("C14/writer-failed-after-read/%s/%s" %
+                                (fmt2, exc_signature(r[1], REPO)),
+                                "%s hop %d\n%r" % (where, i, r[1]))
+            r = call(readGraph, name, gtype, "autodetect")
+        finally:
+            sys.stdout = saved
+        ctx.fault("converted_to:" + fmt2)
+        if r[0] == "exc":
+            raise Violation("C14/roundtrip-load-failed/%s/%s/%s" %
+                            (fmt2, gtype, exc_signature(r[1], REPO)),
+                            "%s\nafter conversion %d to %s: %r\nstored=%r" %
+                            (where, i, fmt2, r[1], data[:500]))
+        diff = _equal(r[1], ref)
+        if diff:
+            raise Violation("C14/roundtrip-differs/%s/%s" % (fmt2, gtype),
+                            "%s\nafter conversion %d to %s: %s\nstored=%r" %
+                            (where, i, fmt2, diff, data[:600]))
+        G = r[1]
+        ctx.probe("graph converted between formats after reading")
+
+
 def _reference(data, fmt, gtype):
     try:
         text = data.decode("utf-8")
@@ -380,6 +422,10 @@ def execute(case, ctx):
             ctx.nontrivial = len(data) > 6
             _judge(data, res, ctx, fmt, gtype, "assembled text load=%r" %
                    (ld,))
+            rr = _reference(data, fmt, gtype)
+            if isinstance(rr, graphref.Valid) and res[0] == "ok":
+                _hops(res[1], rr.graph, case, fs, ctx, gtype,
+                      "assembled text %r load=%r" % (case["text"], ld))
             return
         G, ref = _mk(case)
         st = case["store"]
@@ -446,6 +492,8 @@ def execute(case, ctx):
             if ref.kind != "bipartite" and ref.n >= 10 or \
                     ref.kind == "bipartite" and ref.L + ref.R >= 10:
                 ctx.probe("round trip with >= 10 vertices")
+            if ltype == gtype or gtype != "digraph":
+                _hops(res[1], ref, case, fs, ctx, ltype, where)
             # the in-house writers must also satisfy the reference reader
             rr = _reference(data, fmt, gtype)
             if rr is not None and not isinstance(rr, graphref.Valid):
